@@ -40,6 +40,10 @@ class C03(Prop):
     trusted_base = ["CPython `compile` defines 'compiles'; `ast.get_docstring` defines the docstring"]
     assumptions = ["transform idempotence is claimed only for maps that do not apply (C18 covers renames)"]
 
+    def exhaustive_cases(self, tier, rng):
+        # real-world corpus: stdlib / site-packages modules through reformat and tidy
+        return R.file_corpus_cases(700 if tier == "thorough" else 12, rng)
+
     def gen_case(self, rng, i, tier):
         r = rng.random()
         kw = {}
